@@ -31,7 +31,10 @@ META['level_text'] = (
     'DNA.__getitem__ by id / decision point returns the node at that decision point\'s position and None when inactive (proved), to_dict for every style is a fold over the decision nodes (proved), '
     'and every producer returns an aligned DNA (each node bound to the decision point of its position), whose views equal those of the DNA rebuilt from its numbers. '
     'Tie: the model is run against the library on generated specifications x valid DNAs x all 45 view-parameter combinations (plus inactive decisions), on corrupted views, and '
-    'the direct oracle checks every round trip and the alignment of every DNA the library hands out along chains iter -> clone -> mutate -> recombine.')
+    'the direct oracle checks every round trip and the alignment of every DNA the library hands out along chains iter -> clone -> mutate -> recombine '
+    '(querying the inputs is part of the chain; every lookup on a produced DNA is compared with the DNA rebuilt from its numbers and must return that DNA\'s own nodes). '
+    'The id structure the lookup / dictionary theorems assume is checked on every real specification: each id is the path from the root, ids are unique when the paths are, '
+    'each extends its parent choice\'s id, and they are the same after deep clone, JSON round trip, dna_spec of the equivalent hyper value and after nesting the finished specification under a new choice / multi-choice.')
 META['level_note'] = (
     'Trusted: Coq kernel; extraction cross-checked with vm_compute; the harness including the canonicalisation of dictionary keys and choice strings. '
     'Modelled, not verified: the Python code (tied by the correspondence); string formatting of ids; JSON text encoding (the model stops at the JSON value: lists, tuples, scalars); '
@@ -239,9 +242,11 @@ def process_spec(job):
   si, s, origin, seed, Q, P = job
   forced = None
   light = False
+  medium = False
   if isinstance(origin, tuple):          # (origin, [(label, sdna), ...]): a systematic family with its own DNAs
     origin, forced = origin
     light = origin == 'nesting-chain-family'      # serialisation family: few dictionary combinations per DNA
+    medium = origin == 'mixed-nesting-family'     # id family: the id-keyed combinations, a few others, all lookups
   from pyglove.core import geno
   import pyglove as pgl
   DNA = geno.DNA
@@ -270,6 +275,7 @@ def process_spec(job):
     infos.append([list(ix.addr[id(dp)]), ix.id_tr(dp.id), trlib.opt(dp.name), [dp.subchoice_index] if dp.is_categorical and dp.is_subchoice else []])
   add([17, str_], [infos], dict(op='decision_points', spec=sdesc))
   ctx.count(('dps', trlib.to_line(str_)), nontrivial=nontriv, kind='decision_points')
+  ctx.hist('id_structure_checked', 'ok' if oracle_ids(ctx, s, pg, ix, sdesc) else 'FAILS')
   fin = G.is_finite(s)
   work = [G.random_sdna(rng, s) for _ in range(P['ndna'])]
   if fin and G.size(s) <= 40:
@@ -323,7 +329,10 @@ def process_spec(job):
     add([18] + [verbose[0], verbose[1:]], out, dict(op='from_json(verbose)', spec=sdesc, dna=dstr))
     ctx.count(('verbose', dstr), nontrivial=nontriv, kind='json-verbose')
     # ---- (13) to_dict under every parameter combination, (14) from_dict of the result -------------
-    sel = rng.sample(combos, 2) if light else (combos if wi < P['ndict'] else rng.sample(combos, P['nfam'] if forced is not None else 4))
+    if medium:
+      sel = [('id', 'value', 'subchoice'), ('id', 'dna', 'parent'), ('id', 'choice', 'both'), ('name_or_id', 'literal', 'subchoice'), ('dna_spec', 'value', 'both')][:P['nmix']]
+      sel += [c for c in rng.sample(combos, P['nmix'] - 2) if c not in sel]
+    else: sel = rng.sample(combos, 2) if light else (combos if wi < P['ndict'] else rng.sample(combos, P['nfam'] if forced is not None else 4))
     for kt, vt, mc in sel:
       kti, vti, mci = KTS.index(kt), VTS.index(vt), MCS.index(mc)
       for inactive in ([False, True] if (kti + vti + mci + wi) % 3 == 0 else [False]):
@@ -366,7 +375,7 @@ def process_spec(job):
         dict(op='lookups', spec=sdesc, dna=dstr))
     ctx.count(('lookups', trlib.to_line(str_), trlib.to_line(sdt)), nontrivial=nontriv, kind='lookups')
     # ---- the direct oracle -----------------------------------------------------------------------------
-    oracle_views(ctx, s, pg, ix, sd, d, sdesc, rng, P, full=((wi < P['ndict'] or forced is not None) and not light), light=light); ctx.oracle += 1
+    oracle_views(ctx, s, pg, ix, sd, d, sdesc, rng, P, full=((wi < P['ndict'] or forced is not None) and not light and not medium), light=light); ctx.oracle += 1
   # ---- chains of producers ------------------------------------------------------------------------------
   for ci in range(0 if forced is not None else P['nchains']):
     try:
@@ -566,6 +575,153 @@ def dict_disc(s):
   f = spec_features(s)
   return '+'.join(sorted(x for x in f if x in ('multi', 'named', 'conditional') or x.startswith('lits'))) or 'plain'
 
+# ------------------------------------------------------------------------------------------------
+# id structure of the real specification (the model's C12_lookup / dict theorems assume it; here it is CHECKED)
+def id_keys(kp):
+  from pyglove.core.geno.base import ConditionalKey
+  return tuple(('cond', k.index, k.num_choices) if isinstance(k, ConditionalKey) else k for k in kp.keys)
+
+def expected_ids(s):
+  """address -> keys of the id, from the description alone: an id is the path from the root (locations, subchoice indices,
+  [=candidate/n] for the candidate spaces passed).  Also address -> address of the enclosing choice (or subchoice)."""
+  ids, parent = {}, {}
+  def space(sp, prefix, a, owner):
+    ids[a] = prefix
+    for i, pt in enumerate(sp[1]): point(pt, prefix, a + (i,), owner)
+  def point(pt, prefix, a, owner):
+    loc = pt[5] if pt[0] == 'C' else pt[3] if pt[0] == 'F' else pt[1]
+    pid = prefix + tuple(loc)
+    ids[a] = pid; parent[a] = owner
+    if pt[0] != 'C': return
+    n = len(pt[2])
+    if pt[1] == 1:
+      for j, c in enumerate(pt[2]): space(c, pid + (('cond', j, n),), a + (j,), a)
+    else:
+      for i in range(pt[1]):
+        ids[a + (i,)] = pid + (i,); parent[a + (i,)] = owner
+        for j, c in enumerate(pt[2]): space(c, pid + (i, ('cond', j, n)), a + (i, j), a + (i,))
+  space(s, (), (), None)
+  return ids, parent
+
+def to_hyper(s):
+  """The hyper value whose dna_spec is this specification (None when the description has no such value: custom points,
+  locations other than one attribute name, repeated attribute names)."""
+  import pyglove as pgl
+  class NA(Exception): pass
+  def space(sp, top=False):
+    if not sp[1]: return None if not top else pgl.Dict()
+    out = {}
+    for pt in sp[1]:
+      loc = pt[5] if pt[0] == 'C' else pt[3] if pt[0] == 'F' else pt[1]
+      if len(loc) != 1 or not isinstance(loc[0], str) or not loc[0].isidentifier() or loc[0] in out: raise NA()
+      out[loc[0]] = point(pt)
+    return pgl.Dict(out)
+  def point(pt):
+    if pt[0] == 'X': raise NA()
+    if pt[0] == 'F': return pgl.floatv(float(pt[1]), float(pt[2]), name=pt[4])
+    cands = []
+    for j, c in enumerate(pt[2]):
+      v = space(c)
+      cands.append('const%d' % j if v is None else v)
+    if pt[1] == 1: return pgl.oneof(cands, name=pt[6])
+    return pgl.manyof(pt[1], cands, distinct=pt[3], sorted=pt[4], name=pt[6])
+  try:
+    return space(s, top=True)
+  except NA:
+    return None
+
+def id_listing(pg):
+  """Every id a specification hands out, in a fixed order: decision points (with subchoices), multi-choices, candidate spaces."""
+  out = []
+  def space(sp):
+    out.append(('space', id_keys(sp.id)))
+    for e in sp.elements:
+      out.append(('point', id_keys(e.id)))
+      if e.is_categorical:
+        subs = [e.subchoice(i) for i in range(e.num_choices)] if e.num_choices > 1 else [e]
+        for sub in subs:
+          if sub is not e: out.append(('subchoice', id_keys(sub.id)))
+          for c in sub.candidates: space(c)
+  space(pg)
+  out.append(('decision_points', tuple(id_keys(dp.id) for dp in pg.decision_points)))
+  return out
+
+def oracle_ids(ctx, s, pg, ix, sdesc):
+  """The id of every node of the real specification is its path from the root; ids are unique when the paths are; every id
+  extends the id of the choice it is conditioned on; and the ids are the same however the specification was obtained
+  (deep clone, JSON round trip, dna_spec of the equivalent hyper value, nested afterwards under a new choice)."""
+  from pyglove.core import geno
+  import pyglove as pgl
+  case = dict(spec=s, clause='ids')
+  exp, parent = expected_ids(s)
+  ctx.oracle += 1
+  def fmt(keys): return '.'.join('[=%d/%d]' % k[1:] if isinstance(k, tuple) else str(k) for k in keys)
+  def compare(tag, spec2, ix2, prefix=()):
+    for a, want in exp.items():
+      got = id_keys(ix2.obj[a].id)
+      if got != prefix + want:
+        node = 'space' if a not in ix2.kind else 'point'
+        ctx.hit('C12/id-structure/%s/%s-id-is-not-its-path' % (tag, node),
+                '%s: the %s at address %s has id %r but its path from the root is %r (spec %s)' % (tag, node, list(a), fmt(got), fmt(prefix + want), sdesc), case)
+        return False
+    return True
+  if not compare('as-built', pg, ix): return False
+  # the decision point list: same nodes as the walk, ids unique when the paths are, each under its parent choice
+  dps = list(pg.decision_points)
+  paths = [dp.id.path for dp in dps]
+  want_unique = len(set(exp[ix.addr[id(dp)]] for dp in dps)) == len(dps)
+  if want_unique and len(set(paths)) != len(paths):
+    dup = sorted(x for x in set(paths) if paths.count(x) > 1)
+    ctx.hit('C12/id-structure/ids-not-unique', 'decision point ids repeat: %r (spec %s)' % (dup[:3], sdesc), case); return False
+  for dp in dps:
+    a = ix.addr[id(dp)]
+    pa = parent[a]
+    pc = dp.parent_choice
+    if (pa is None) != (pc is None) or (pa is not None and pc is not ix.obj[pa]):
+      ctx.hit('C12/id-structure/parent-choice', 'the decision point %s at %s reports parent choice %s, expected the one at %s (spec %s)' % (dp.id.path, list(a), pc and pc.id.path, pa and list(pa), sdesc), case)
+      return False
+    if pc is not None:
+      pk, k = id_keys(pc.id), id_keys(dp.id)
+      if k[:len(pk)] != pk or len(k) <= len(pk) or not (isinstance(k[len(pk)], tuple)):
+        ctx.hit('C12/id-structure/id-does-not-extend-parent', 'id %r is not the id of its parent choice %r followed by a candidate key (spec %s)' % (dp.id.path, pc.id.path, sdesc), case)
+        return False
+    if dp.is_categorical and dp.is_subchoice:
+      if id_keys(dp.id) != id_keys(dp.parent_spec.id) + (dp.subchoice_index,):
+        ctx.hit('C12/id-structure/subchoice-id', 'subchoice id %r is not %r + [%d] (spec %s)' % (dp.id.path, dp.parent_spec.id.path, dp.subchoice_index, sdesc), case); return False
+  # other ways of obtaining the same specification
+  base = id_listing(pg)
+  variants = [('deep-clone', lambda: pg.clone(deep=True)), ('json-round-trip', lambda: pgl.from_json(pg.to_json())),
+              ('json-str-round-trip', lambda: pgl.from_json_str(pg.to_json_str()))]
+  hv = to_hyper(s)
+  if hv is not None: variants.append(('dna_spec-of-hyper-value', lambda: pgl.dna_spec(hv)))
+  ctx.hist('id_structure_variants', 'with-hyper-value' if hv is not None else 'without-hyper-value')
+  for tag, make in variants:
+    try:
+      other = make()
+      lst = id_listing(other)
+    except Exception as e:   # pylint: disable=broad-except
+      ctx.hit('C12/id-structure/%s/raises' % tag, '%s of the specification raises %s: %s (spec %s)' % (tag, type(e).__name__, str(e)[:120], sdesc), case); return False
+    if lst != base:
+      bad = next((x, y) for x, y in zip(lst + [None], base + [None]) if x != y)
+      ctx.hit('C12/id-structure/%s/ids-differ' % tag, 'after %s the ids differ: %r instead of %r (spec %s)' % (tag, bad[0], bad[1], sdesc), case); return False
+  # nested afterwards: the finished specification becomes candidate 1 of a new choice 'w' (every id gains the prefix w[=1/2]),
+  # and that one a candidate of a multi-choice 'v' (prefix v[i][=0/2].w[=1/2]): a path change pushed through a finished tree
+  try:
+    inner = pg.clone(deep=True)
+    outer = geno.Space([geno.Choices(1, [geno.Space([]), inner], location='w')])
+    ix2 = SpecIndex(s, inner)
+    if not compare('nested-under-new-choice', inner, ix2, ('w', ('cond', 1, 2))): return False
+    outer2 = geno.Space([geno.Choices(2, [outer, geno.Space([])], distinct=False, location='v')])
+    sub1 = outer2.elements[0].subchoice(1)
+    inner1 = sub1.candidates[0].elements[0].candidates[1]
+    if not compare('nested-under-new-multi-choice', inner1, SpecIndex(s, inner1), ('v', 1, ('cond', 0, 2), 'w', ('cond', 1, 2))): return False
+    allp = [dp.id.path for dp in outer2.decision_points]
+    if want_unique and len(set(allp)) != len(allp):
+      ctx.hit('C12/id-structure/nested-under-new-multi-choice/ids-not-unique', 'decision point ids repeat after nesting under v / w (spec %s)' % sdesc, case); return False
+  except Exception as e:   # pylint: disable=broad-except
+    ctx.hit('C12/id-structure/nesting/raises', 'nesting the finished specification under a new choice raises %s: %s (spec %s)' % (type(e).__name__, str(e)[:120], sdesc), case); return False
+  return True
+
 def run_all_lookups(d, pg):
   """Every lookup API of a DNA (also primes its lazily built tables).  Returns {query: raw result}; an exception is a result."""
   out = {}
@@ -750,7 +906,7 @@ def run(ctx):
   Q['nested_lossy'] = nested_is_lossy()
   ctx.extra['quirk_flags_from_witness_replay'] = Q
   import time
-  P = dict(ndna=ctx.scale(2, 6), ndict=ctx.scale(1, 2), ncorr=ctx.scale(3, 6), nchains=ctx.scale(1, 3), all_small=ctx.thorough, nfam=ctx.scale(9, 45),
+  P = dict(ndna=ctx.scale(2, 6), ndict=ctx.scale(1, 2), ncorr=ctx.scale(3, 6), nchains=ctx.scale(1, 3), all_small=ctx.thorough, nfam=ctx.scale(9, 45), nmix=ctx.scale(3, 5),
            deadline=time.time() + ctx.scale(85, 1100))
   ctx.extra['per_spec_parameters'] = {k: v for k, v in P.items() if k != 'deadline'}
   small = G.small_specs()
@@ -780,10 +936,35 @@ def run(ctx):
   ctx.extra['nesting_chain_family'] = dict(specs=len(chains), dnas=sum(len(d) for _, _, d in chains),
       what='oneof -> oneof -> ... (depth 1..%d, continuing candidate first / last, alone or next to a sibling point) ending in leaf / float / custom / Space with 2 or 3 points / manyof k=2,3 / manyof with nested choices; '
            'every branch chosen; compact, verbose, json_str, nested numbers and printed form are round-tripped and the re-bound DNA compared (equality, numbers, views, lookups, alignment)' % (4 if ctx.thorough else 3))
+  # systematic: two branches with identical inner locations, every sequence of oneof / manyof levels, ending in a decision point
+  mixed = G.mixed_nesting_family(max_depth=4 if ctx.thorough else 3, kinds='OMN' if ctx.thorough else 'OM')
+  if not ctx.thorough:
+    # quick: depth 1 as siblings; depth 2 with the float terminal in all three arrangements; depth 3 as siblings with the float
+    # terminal, and with the other terminals for the alternating sequences; non-distinct multi-choice levels at depth <= 2 as siblings
+    def keep(label):
+      dp, seq, term, arr = label.split('/')
+      if dp == 'depth1': return arr == 'siblings'
+      if dp == 'depth2': return term == 'float'
+      return arr == 'siblings' and (term == 'float' or seq in ('OMO', 'MOM'))
+    mixed = [m for m in mixed if keep(m[0])]
+    mixed += [m for m in G.mixed_nesting_family(max_depth=2, kinds='OMN', terminals=('float',), arrangements=('siblings',)) if 'N' in m[0].split('/')[1]]
+    mixed.sort(key=lambda m: -len(m[0].split('/')[1]))      # deepest first: a wall-clock cut on a slow machine drops the shallow ones
+  else:
+    # thorough: depth <= 2 complete; depth 3 complete as siblings, float terminal in the other arrangements; depth 4 over oneof / manyof as siblings, float terminal
+    def keep(label):
+      dp, seq, term, arr = label.split('/')
+      if dp in ('depth1', 'depth2'): return True
+      if dp == 'depth3': return arr == 'siblings' or term == 'float'
+      return arr == 'siblings' and term == 'float' and 'N' not in seq
+    mixed = [m for m in mixed if keep(m[0])]
+  ctx.extra['mixed_nesting_family'] = dict(specs=len(mixed), dnas=sum(len(d) for _, _, d in mixed),
+      what='two branches with identical inner locations (sibling points a1/a2, two candidates of a oneof, two subchoices of a non-distinct manyof); a branch is every sequence of '
+           'oneof / manyof(2) / non-distinct manyof(2) levels up to the depth of the tier ending in float / choice / custom; DNAs with both branches active (different decisions) and with one stopped; '
+           'id structure checked on the real spec and all view / dict / lookup round trips run')
   tail = [(s, 'small+names/literals') for s in chosen] + [(s, 'random') for s in rand_specs]
   rng.shuffle(tail)      # a wall-clock cut on a busy machine then hits both groups proportionally
   specs = [(s, 'fixed') for s in FIXED_SPECS + FIXED_C12] + [(s, ('shared-point-family', dnas)) for _, s, dnas in family] + \
-          [(s, ('nesting-chain-family', dnas)) for _, s, dnas in chains] + tail
+          [(s, ('nesting-chain-family', dnas)) for _, s, dnas in chains] + [(s, ('mixed-nesting-family', dnas)) for _, s, dnas in mixed] + tail
   if os.environ.get('C12_MAXSPECS'):
     specs = specs[::max(1, len(specs) // int(os.environ['C12_MAXSPECS']))]
   jobs = [(si, s, origin, rng.getrandbits(48), Q, P) for si, (s, origin) in enumerate(specs)]
@@ -839,7 +1020,10 @@ def replay(ctx, rp):
   pg = G.to_pg(s)
   ix = SpecIndex(s, pg)
   p = Rec()
-  if 'sdna' in c:
+  oracle_ids(p, s, pg, ix, G.describe(s))
+  if c.get('clause') == 'ids':
+    pass
+  elif 'sdna' in c:
     sd = _sdna_from_json(c['sdna'])
     d = G.build_dna(sd).use_spec(pg)
     oracle_views(p, s, pg, ix, sd, d, G.describe(s), pyrandom.Random(0), {})
